@@ -1,21 +1,36 @@
 #!/bin/bash
 # Re-runs the property check of every stored seeded change against the current checks
 # (the changes were confirmed when they were stored) and updates detected_by_check /
-# check_output.txt.  usage: tools/reeval_seeds.sh [pattern]
+# check_output.txt.  usage: [JOBS=n] tools/reeval_seeds.sh [pattern]
+# Each job works on its own scratch copy of /repo's working tree under /tmp (removed
+# afterwards); the engine is pointed at it through REPO_DIR, /repo itself is not touched.
 cd "$(dirname "$0")/.."
-for d in seeded/*${1:-}*/; do
-  d=${d%/}; id=$(basename "$d" | sed 's/-.*//')
-  [ -f "$d/patch.diff" ] || continue
-  if ! git -C /repo apply --check "$PWD/$d/patch.diff" 2>/dev/null; then echo "SKIP $d (does not apply)"; continue; fi
-  git -C /repo apply "$PWD/$d/patch.diff"
-  out=$(VERIF_NO_EVIDENCE=1 ./check "$id" 2>&1); rc=$?
-  git -C /repo apply -R "$PWD/$d/patch.diff"
-  echo "$out" | grep -E "VIOLATION|discharged" | head -4 > "$d/check_output.txt"
-  python3 - "$d" "$rc" <<PY
+jobs="${JOBS:-3}"
+ls -d seeded/*${1:-}*/ 2>/dev/null | sed 's:/$::' > /tmp/reeval.list.$$
+split -n "r/$jobs" /tmp/reeval.list.$$ /tmp/reeval.part.$$.
+for part in /tmp/reeval.part.$$.*; do
+  (
+    tree=$(mktemp -d /tmp/reeval.tree.XXXXXX)
+    rsync -a --exclude .git /repo/ "$tree"/
+    (cd "$tree" && git init -q . && git add -A >/dev/null 2>&1 && git -c user.email=x -c user.name=x commit -qm base >/dev/null 2>&1)
+    while read -r d; do
+      id=$(basename "$d" | sed 's/-.*//')
+      [ -f "$d/patch.diff" ] || continue
+      if ! git -C "$tree" apply --check "$PWD/$d/patch.diff" 2>/dev/null; then echo "SKIP $d (does not apply)"; continue; fi
+      git -C "$tree" apply "$PWD/$d/patch.diff"
+      out=$(REPO_DIR="$tree" VERIF_NO_EVIDENCE=1 ./check "$id" 2>&1); rc=$?
+      git -C "$tree" apply -R "$PWD/$d/patch.diff"
+      echo "$out" | grep -E "VIOLATION|discharged" | head -4 > "$d/check_output.txt"
+      python3 - "$d" "$rc" <<PY
 import json,sys
 d,rc=sys.argv[1],int(sys.argv[2])
 m=json.load(open(d+'/meta.json')); m['check_exit_code']=rc; m['detected_by_check']=(rc==1)
 json.dump(m,open(d+'/meta.json','w'),indent=1)
 print(d, 'detected' if rc==1 else 'missed')
 PY
+    done < "$part"
+    rm -rf "$tree" "$part"
+  ) &
 done
+wait
+rm -f /tmp/reeval.list.$$
